@@ -15,13 +15,11 @@ symbolic reasoning about the spaces in which finite elements lie.
 # Modified by Lizao Li 2015
 # Modified by Thomas Gibson 2017
 
-from functools import total_ordering
 from math import inf, isinf
 
 __all_classes__ = ["SobolevSpace", "DirectionalSobolevSpace"]
 
 
-@total_ordering
 class SobolevSpace:
     """Symbolic representation of a Sobolev space.
 
@@ -91,8 +89,22 @@ class SobolevSpace:
         """In common with intrinsic Python sets, < indicates "is a proper subset of"."""
         return other in self.parents
 
+    # Inclusion is only a partial order, so the remaining comparisons
+    # are defined from < and == rather than by functools.total_ordering
+    # (which would make incomparable spaces compare as >).
+    def __gt__(self, other):
+        """Implement > as "is a proper superset of"."""
+        return other < self
 
-@total_ordering
+    def __le__(self, other):
+        """Implement <= as "is a subset of"."""
+        return self < other or self == other
+
+    def __ge__(self, other):
+        """Implement >= as "is a superset of"."""
+        return other < self or self == other
+
+
 class DirectionalSobolevSpace(SobolevSpace):
     """Directional Sobolev space.
 
@@ -150,15 +162,32 @@ class DirectionalSobolevSpace(SobolevSpace):
         if isinstance(other, DirectionalSobolevSpace):
             if self._spatial_indices != other._spatial_indices:
                 return False
-            return any(self._orders[i] > other._orders[i] for i in self._spatial_indices)
+            return all(
+                self._orders[i] >= other._orders[i] for i in self._spatial_indices
+            ) and any(self._orders[i] > other._orders[i] for i in self._spatial_indices)
 
         if other in [HDiv, HCurl]:
             return all(self._orders[i] >= 1 for i in self._spatial_indices)
         elif other.name in ["HDivDiv", "HEin", "HCurlDiv"]:
             # Don't know how these spaces compare
-            return NotImplementedError(f"Don't know how to compare with {other.name}")
+            raise NotImplementedError(f"Don't know how to compare with {other.name}")
         else:
-            return any(self._orders[i] > other._order for i in self._spatial_indices)
+            return all(self._orders[i] >= other._order for i in self._spatial_indices) and any(
+                self._orders[i] > other._order for i in self._spatial_indices
+            )
+
+    def __gt__(self, other):
+        """Implement > as "is a proper superset of"."""
+        if isinstance(other, DirectionalSobolevSpace):
+            return other < self
+        if other.name in ["HDivDiv", "HEin", "HCurlDiv"]:
+            # Don't know how these spaces compare
+            raise NotImplementedError(f"Don't know how to compare with {other.name}")
+        # A space of order k is contained in this space iff the isotropic
+        # space H^k is, i.e. iff no direction asks for more than k derivatives.
+        return all(self._orders[i] <= other._order for i in self._spatial_indices) and not (
+            self == other
+        )
 
     def __str__(self):
         """Format as a string."""
